@@ -138,6 +138,27 @@ def cluster_unresolved(exact, got, nroots, res, nerr):
     return any_cluster
 
 
+def skipped_lower_root(exact, got, nroots, res, nerr):
+    """True when the returned set consists of accurate eigenpairs of H (normalised vectors, small residuals, every value
+    on an exact eigenvalue or inside a cluster of near-degenerate ones) but is not the set of the lowest ones: the
+    iteration stalled on a plateau (a higher eigenvalue, or the inside of a cluster) when the stopping test fired."""
+    if nerr > 1e-6 or res > 1e-3:
+        return False
+    g = numpy.sort(numpy.real(numpy.asarray(got)[:nroots]))
+    skipped = False
+    for i in range(nroots):
+        if abs(g[i] - exact[i]) <= 1e-6:
+            continue
+        near = numpy.abs(exact - g[i])
+        members = exact[numpy.abs(exact - exact[min(int(near.argmin()), len(exact) - 1)]) < 1e-3]
+        if near.min() > 1e-6 and not (len(members) >= 2 and members.min() - 1e-6 <= g[i] <= members.max() + 1e-6):
+            return False
+        if g[i] < exact[i] - 1e-6:
+            return False
+        skipped = True
+    return skipped
+
+
 def enc(a):
     a = numpy.asarray(a, dtype=numpy.complex128)
     return {"shape": list(a.shape), "re": a.real.ravel().tolist(), "im": a.imag.ravel().tolist()}
@@ -164,17 +185,24 @@ def fqe_case(ctx, case, norb, na, nb, h1, h2, api, nroots, guess_data, cplx_h, c
     desc = {"norb": norb, "nalpha": na, "nbeta": nb, "dim": len(dets), "case": case, "api": api, "nroots": nroots,
             "complex_hamiltonian": bool(cplx_h), "complex_guess_vectors": bool(cplx_g), "kind": "fqe",
             "h1": enc(h1), "h2": enc(h2), "guesses": [enc(g) for g in guess_data] if guess_data is not None else None}
-    try:
+    def solve(gdata, npseed):
+        # the module-level entry point draws one of its guess vectors from numpy's global generator: seed it, so that
+        # the case replays, and so that it can be repeated with other guesses
+        numpy.random.seed(npseed)
         if api == "davidson_diagonalization":
-            ew, ev = davidson.davidson_diagonalization(ham, na, nb, nroots=nroots)
-        else:
-            guesses = []
-            for c in guess_data:
-                g = fqe.Wavefunction([[na + nb, na - nb, norb]])
-                g.set_wfn(strategy="from_data", raw_data={key: numpy.array(c, dtype=numpy.complex128)})
-                g.normalize()
-                guesses.append(g)
-            ew, ev = davidson.davidsonliu_fqe(ham, nroots, guesses, na + nb, na - nb, norb)
+            return davidson.davidson_diagonalization(ham, na, nb, nroots=nroots)
+        guesses = []
+        for c in gdata:
+            g = fqe.Wavefunction([[na + nb, na - nb, norb]])
+            g.set_wfn(strategy="from_data", raw_data={key: numpy.array(c, dtype=numpy.complex128)})
+            g.normalize()
+            guesses.append(g)
+        return davidson.davidsonliu_fqe(ham, nroots, guesses, na + nb, na - nb, norb)
+
+    npseed0 = (1000003 * (case + 1)) % (2 ** 31)
+    desc["numpy_seed"] = npseed0
+    try:
+        ew, ev = solve(guess_data, npseed0)
         oc = "returned"
     except davidson.ConvergenceError:
         oc = "ConvergenceError"
@@ -198,6 +226,25 @@ def fqe_case(ctx, case, norb, na, nb, h1, h2, api, nroots, guess_data, cplx_h, c
         sig = "davidson:fqe" + (":complex-guess" if cplx_g else "") + (":complex-hamiltonian" if cplx_h else "")
         if cluster_unresolved(exact, ew, nroots, res, nerr):
             sig = "davidson:near-degenerate-cluster-not-resolved"
+        elif skipped_lower_root(exact, ew, nroots, res, nerr):
+            # accurate eigenpairs, but a lower eigenvalue was skipped.  Sporadic (the stopping test fired on a plateau
+            # for these guess vectors: the recorded finding) or systematic (no guess reaches the skipped state)?  Repeat
+            # the same problem with other guess vectors.
+            reached = 0
+            for rep_ in range(1, 4):
+                gr = numpy.random.RandomState(npseed0 + rep_)
+                gd = None
+                if guess_data is not None:
+                    gd = [(gr.randn(*numpy.shape(c)) + (1j * gr.randn(*numpy.shape(c)) if cplx_g else 0)).astype(numpy.complex128)
+                          for c in guess_data]
+                try:
+                    ew2, _ = solve(gd, npseed0 + rep_)
+                    if float(numpy.abs(numpy.sort(numpy.real(numpy.asarray(ew2)[:nroots])) - exact[:nroots]).max()) <= 1e-6:
+                        reached += 1
+                except Exception:
+                    pass
+            ctx.count(f"skipped-root:repeats-that-reach-it={reached}")
+            sig = "davidson:near-degenerate-cluster-not-resolved" if reached > 0 else "davidson:fqe:root-skipped-for-every-guess"
         ctx.disagree(sig, f"eigenvalue error {err:.2e}, residual {res:.2e}, normalisation error {nerr:.2e} "
                      f"(lowest exact {exact[:nroots + 2]}, got {numpy.asarray(ew)[:nroots]})", desc)
 
